@@ -403,7 +403,7 @@ def _loop(world, f, code):
         elif op == 0x53:
             need(2); off, v = small(pop(), "MSTORE8 offset"), pop(); mwrite(f, off, bytes([v & 0xFF]))
         elif op == 0x54:
-            need(1); k = pop(); push(world.storage.get(this, {}).get(k, 0))
+            need(1); k = pop(); push(world.storage.get(this, {}).get(k, getattr(world, 'storage_default', 0)))
         elif op == 0x55:
             need(2); k, v = pop(), pop()
             if msg.static:
